@@ -66,6 +66,16 @@ def dataset(spec):
     key = common.digest(spec)
     if key in _ds_cache:
         return _ds_cache[key]
+    ds = build_dataset(spec)
+    if len(_ds_cache) > 64:
+        _ds_cache.clear()
+    _ds_cache[key] = ds
+    return ds
+
+
+def build_dataset(spec):
+    """A NEW Dataset object for the spec, referenced by nobody but the caller (drivers that vary object lifetimes drop it)."""
+    setup()
     from lenskit.data import from_interactions_df
 
     df = pd.DataFrame({
@@ -80,11 +90,7 @@ def dataset(spec):
         df["timestamp"] = np.array([r[3] for r in spec["rows"]], dtype=np.int64)
     if spec.get("implicit"):
         df = df.drop(columns=["rating"])
-    ds = from_interactions_df(df)
-    if len(_ds_cache) > 64:
-        _ds_cache.clear()
-    _ds_cache[key] = ds
-    return ds
+    return from_interactions_df(df)
 
 
 # ---------------------------------------------------------------------------------------------
